@@ -1,4 +1,4 @@
-"""C05 - every jump lands on the instruction the source construct meant (bounded)."""
+"""C05 - every jump lands on the instruction the source construct meant (label-map loop proved; substitution phase bounded)."""
 from pyvc.report import Report
 
 
@@ -6,6 +6,10 @@ def run(tier, seed):
     rep = Report("C05", tier, seed, level="exploration")
     from bounded.driver import replay_known, run_bounded
 
+    from contracts.labels_c import run_into
+
+    # proved part: the label -> line-number loop of remove_labels, for texts of every length
+    run_into(rep)
     replay_known(rep, "C05")
     q = tier == "quick"
     run_bounded(rep, "C05", [("calls", {"calls_focus": True, "max_funcs": 3}, "labels", 900 if q else 15000),
@@ -15,6 +19,8 @@ def run(tier, seed):
                 budget_s=80 if q else 1500, seed=seed, want=["C05", "C01"])
     rep.trust("bounded/props.py:spec_remove_labels (the property's own definition: labels replaced token-wise by the index of the following instruction)",
               "spec/ic10_machine.py tokeniser")
-    rep.assume("remove_labels / remove_unused_labels are regular-expression rewrites of whole lines: outside SMT reach, bounded only",
+    rep.assume("proved part (loop contract on the real statements of remove_labels): str operations (split, strip, endswith, slicing, truthiness) and membership in keep_labels are pure functions of their receiver, modelled as uninterpreted functions named after the operation; code.splitlines() is a list of symbolic length; integers mathematical",
+               "the kept-line count K is defined by recursion; its unfolding is used at the loop index and in two separately proved induction lemmas only",
+               "the substitution phase of remove_labels and remove_unused_labels are regular-expression rewrites of whole lines: outside SMT reach, bounded only",
                "identifier collisions that are recorded known findings (prefix names, label text inside HASH(), f/fend) are excluded from generation")
     return rep.finish(min_obligations=1)
